@@ -81,6 +81,16 @@ CHECKS = {
   text="Exploration with exhaustive sub-spaces: all 256 byte values for every classifier; all lines up to 6-10 symbols over per-rule alphabets; all URI / e-mail strings up to 5-8 symbols; plus random longer lines and addresses with 62/63/64-character labels. Held on the calls observed, with one listed known finding (KF01).",
   note="Trusted: my regexps for sections 4.1-4.5 and 5.2, Go's unicode tables for general categories (same tables as the library).",
   ref="DESIGN.md section 6 C15"),
+ "C11": dict(
+  technique="runtime monitor with a reference model: an executable transcription of the spec's delimiter-run rules and process-emphasis procedure without the search-bound optimisation runs beside the library on every paragraph; flanking flags are also compared run by run through a build-tag-guarded hook",
+  text="Exploration with exhaustive sub-spaces: all strings up to 8 (quick) / 10 (thorough) symbols over {*,_,a,SP,.} and up to 6/7 over the 8-symbol alphabet with Unicode punctuation/space/letter, each as a bare paragraph and wrapped x...x; plus 1 M / 50 M random strings of 11-60 symbols biased to long runs. Held on the paragraphs observed.",
+  note="Trusted: refimpl/emph (validated at development time on the 108 applicable spec examples), Go's unicode tables.",
+  ref="DESIGN.md section 6 C11"),
+ "C12": dict(
+  technique="runtime monitor with a reference model: directed documents with competing definitions (unique destinations/titles) and one use per link form are judged against my own label normaliser (casefold fixture from python3); on every tree of the general workload the reference map is checked for closure, normal-form keys, equality with Extract in order and with an independent tree-walk extraction",
+  text="Exploration: 300 k (quick) / 15 M (thorough) directed matching/precedence documents over labels with multi-character folds, whitespace variants, escaped brackets and non-matching neighbours; closure on spec prefixes, line-structured documents, soup and mutations. Held on the executions observed.",
+  note="Trusted: refimpl/label and fixtures/casefold.tsv (Unicode 14.0), restricted per rune to code points on which it agrees with golang.org/x/text (Unicode 13).",
+  ref="DESIGN.md section 6 C12"),
 }
 
 NOT_YET = {}
